@@ -780,6 +780,24 @@ func corpusScript(mode string, i int) *e2eInput {
 		s.pub("watch", "x/c", "after", 0, false)
 		s.checks()
 		return &s.in
+	case (mode == "inbound" && i == 0) || (mode == "pipeline" && i == 0) || (mode == "lifecycle" && i == 2):
+		// the client's own packet identifiers and the broker's are separate spaces: a session that has
+		// an unacknowledged delivery under identifier 1 publishes at QoS 2 under identifier 1
+		s := newScript(nil, 1)
+		s.connect(0, "both", "c-both", "", 60, nil)
+		s.sub("both", []string{"t/#"}, []int{1})
+		s.connect(0, "other", "c-other", "", 60, nil)
+		s.sub("other", []string{"t/#"}, []int{2})
+		s.add(e2eOp{Op: "send", C: "both", P: "pub", T: "t/x", Pl: "first", Q: 1, Mid: 10})
+		s.add(e2eOp{Op: "send", C: "both", P: "pub", T: "t/y", Pl: "second", Q: 2, Mid: 1})
+		s.add(e2eOp{Op: "send", C: "both", P: "pub", T: "t/z", Pl: "third", Q: 2, Mid: 2})
+		s.ackRaw("both", "pubrel", 1)
+		s.ack("both", "puback", "t/x", "first", 1, 0)
+		s.ackRaw("both", "pubrel", 2)
+		s.add(e2eOp{Op: "send", C: "both", P: "ping"})
+		s.add(e2eOp{Op: "sweep", N: 0})
+		s.checks()
+		return &s.in
 	case mode == "lifecycle" && i == 1:
 		// the same with the session lost instead of disconnected, and the last remembered filter removed first
 		s := newScript(nil, 1)
